@@ -370,8 +370,22 @@ func snapExecOp(rp **snapRun, f []string) string {
 		}
 		return "bad-op"
 	}
-	if r == nil || r.closed && f[0] != "reopen" && f[0] != "dump" {
+	if r == nil || r.closed && f[0] != "reopen" && f[0] != "dump" && f[0] != "planttmp" {
 		return "bad-op"
+	}
+	if f[0] == "planttmp" {
+		// a compaction temp file left behind by an earlier failed compaction, beside the snapshot (only while closed)
+		if len(f) != 2 || !r.closed {
+			return "bad-op"
+		}
+		b := unhex(f[1])
+		if b == nil {
+			return "bad-op"
+		}
+		if err := os.WriteFile(r.path+".compact", b, 0644); err != nil {
+			return "error-write"
+		}
+		return "ok"
 	}
 	deliver := func(e serf.Event, clk uint64) string {
 		if r.async {
@@ -605,6 +619,7 @@ type snapGenOpts struct {
 	leave     bool // include a Leave()
 	newline   bool // use names with '\n'
 	long      bool // long names (bufio boundary)
+	staleTmp  bool // a compaction temp file left by an earlier failed compaction lies beside the snapshot at every restart
 	maxEvents int
 }
 
@@ -740,6 +755,14 @@ func snapCase(rng *rand.Rand, id string, o snapGenOpts) Case {
 		if rng.Intn(6) == 0 {
 			mc = snapThresholds[rng.Intn(len(snapThresholds))]
 		}
+		if o.staleTmp {
+			// what a compaction would have written (a member only this file knows, clocks), sometimes cut short
+			stale := "alive: stale-node 10.9.9.9:7946\nclock: 3\nevent-clock: 2\nquery-clock: 1\n"
+			if g%2 == 1 {
+				stale = stale[:len(stale)-9]
+			}
+			ops = append(ops, "planttmp "+hexs(stale))
+		}
 		ops = append(ops, fmt.Sprintf("reopen %s %d", b01(rrj), mc))
 		rj = rrj
 	}
@@ -754,6 +777,9 @@ func snapCase(rng *rand.Rand, id string, o snapGenOpts) Case {
 	}
 	if o.long {
 		c.Tags = append(c.Tags, "long-names")
+	}
+	if o.staleTmp {
+		c.Tags = append(c.Tags, "stale-compact-file")
 	}
 	if tot["compact"] > 0 {
 		c.Tags = append(c.Tags, "forced-compaction")
